@@ -46,7 +46,8 @@ def grid(ctx):
                 for idem in (False, True):
                     for same_ok in (True, False):
                         d2, c2 = second[(kind + dec) % 4]
-                        sc = base(idem=idem, spec=[True, 1], script=[[dec, dcl], [d2, c2], [1, None]])
+                        sc = base(idem=idem, spec=[True, 1], script=[[dec, dcl], [d2, c2], [1, None]],
+                                  metrics=bool((kind + dec) % 2), nids=[1, 4, 2][(kind + idem) % 3])
                         kinds = [kind, (kind + 4) % 9, (kind + 2) % 9]
                         run = H.Run(sc)
                         orc = K.Oracle(sc, run, PID)
@@ -54,6 +55,8 @@ def grid(ctx):
                         ops = [['start'], ['resp', 0, [3, kinds[0], 10]]]
                         if not same_ok:
                             ops.append(['pool', 1, 2])
+                        elif kind >= 7:
+                            ops.append(['pool', 1, 6])      # connection error: the pool replaced the connection (ids restart at 0)
                         ops += [['run', 0], ['resp', 1, [3, kinds[1], 11]], ['run', 0], ['resp', 2, [3, kinds[2], 12]]]
                         for i, op in enumerate(ops):
                             sc['ops'].append(op)
@@ -83,12 +86,14 @@ def levels(ctx):
     items = []
     for dec in (0, 3):
         for dcl in [None] + list(range(11)):
-            for cl0 in (1, 6, 0):
-                for kind in (0, 3, 7):
-                    sc = base(cl=cl0, script=[[dec, dcl], [dec, None], [1, None]])
-                    obs, bad, run = run_ops(sc, [['start'], ['resp', 0, [3, kind, 10]], ['run', 0], ['resp', 1, [3, (kind + 1) % 9, 11]],
-                                                 ['run', 0], ['resp', 2, [3, 2, 12]]])
-                    items.append((sc, obs, bad, {'nontrivial': True, 'sample': len(items) == 9}))
+            for cl0 in (1, 0):
+                for kind in (0, 7):
+                  for metrics in (False, True):           # Cluster(metrics_enabled=True): bookkeeping must not change the decision's effect
+                    for nids in (1, 4):                   # nids=1: every re-send on a host goes out on stream id 0
+                      sc = base(cl=cl0, metrics=metrics, nids=nids, script=[[dec, dcl], [dec, None], [1, None]])
+                      obs, bad, run = run_ops(sc, [['start'], ['resp', 0, [3, kind, 10]], ['run', 0], ['resp', 1, [3, (kind + 1) % 9, 11]],
+                                                   ['run', 0], ['resp', 2, [3, 2, 12]]])
+                      items.append((sc, obs, bad, {'nontrivial': True, 'sample': len(items) == 9}))
     return items
 
 
